@@ -465,9 +465,27 @@ func runCase(work string, c *Case) {
 // handlers, real queue, real lbc.sync, real LocalSecretStore) over the same Configurator and
 // LocalManager; the harness plays the API server + informer.
 func runCtl(s *sut, c *Case) {
-	ctl := k8s.VerifC11New(s.ctx, s.cnf)
+	// the API server: every Secret object that exists, in the order in which the keys first appeared
+	api := map[string]*api_v1.Secret{}
+	var order []string
+	unwatched := map[string]bool{}
+	watchedList := func() []string {
+		var w []string
+		for _, n := range cleanNS {
+			if !unwatched[n] {
+				w = append(w, n)
+			}
+		}
+		return w
+	}
+	ctl := k8s.VerifC11New(s.ctx, s.cnf, watchedList(), cleanNS)
 	steps := make([]StepObs, 0, len(c.Ops))
 	rv := 0
+	must := func(so *StepObs, what string, err error) {
+		if err != nil {
+			so.Panic = what + ": " + err.Error()
+		}
+	}
 	for i := range c.Ops {
 		o := &c.Ops[i]
 		if o.Op == "cput" {
@@ -485,13 +503,23 @@ func runCtl(s *sut, c *Case) {
 				rv++
 				sec := mkSecret(*o)
 				sec.ResourceVersion = fmt.Sprint(rv)
-				if err := ctl.Put(sec); err != nil {
-					so.Panic = "put: " + err.Error()
+				key := o.NS + "/" + o.Name
+				if _, ok := api[key]; !ok {
+					seen := false
+					for _, k := range order {
+						seen = seen || k == key
+					}
+					if !seen {
+						order = append(order, key)
+					}
 				}
+				api[key] = sec
+				_, err := ctl.Put(sec)
+				must(&so, "put", err)
 			case "cdel":
-				if _, err := ctl.Del(o.NS + "/" + o.Name); err != nil {
-					so.Panic = "del: " + err.Error()
-				}
+				delete(api, o.NS+"/"+o.Name)
+				_, err := ctl.Del(o.NS, o.Name)
+				must(&so, "del", err)
 			case "drain":
 				so.Synced = ctl.Drain()
 				if n := ctl.QueueLen(); n != 0 {
@@ -500,6 +528,41 @@ func runCtl(s *sut, c *Case) {
 			case "get":
 				ref := ctl.Get(o.Key)
 				so.Path, so.Err = s.rel(ref.Path), ref.Error != nil
+			case "start":
+				// Run(): caches are synced (the Add events above are queued), then preSyncSecrets
+				ctl.PreSync()
+			case "unwatch":
+				if !unwatched[o.NS] {
+					unwatched[o.NS] = true
+					ctl.Unwatch(o.NS)
+				}
+			case "watch":
+				if unwatched[o.NS] {
+					delete(unwatched, o.NS)
+					ctl.Watch(o.NS)
+					for _, k := range order { // the new informers list the namespace: Add events
+						if sec, ok := api[k]; ok && sec.Namespace == o.NS {
+							_, err := ctl.Put(sec)
+							must(&so, "put", err)
+						}
+					}
+				}
+			case "restart":
+				// the process dies and a new one starts over the same /etc/nginx: new LocalManager,
+				// Configurator, store and controller; the informers list the cluster (Add events)
+				ns, err := newSUT(s.root)
+				if err != nil {
+					so.Panic = "restart: " + err.Error()
+					return
+				}
+				*s = *ns
+				ctl = k8s.VerifC11New(s.ctx, s.cnf, watchedList(), cleanNS)
+				for _, k := range order {
+					if sec, ok := api[k]; ok && !unwatched[sec.Namespace] {
+						_, err := ctl.Put(sec)
+						must(&so, "put", err)
+					}
+				}
 			}
 		}()
 		so.LS = s.ls()
@@ -514,6 +577,11 @@ func cput(k keyT, typ, payload string, salt int) Op {
 func cdel(k keyT) Op { return Op{Op: "cdel", NS: k.ns, Name: k.name} }
 
 var drain = Op{Op: "drain"}
+var start = Op{Op: "start"}
+var restart = Op{Op: "restart"}
+
+func unwatch(ns string) Op { return Op{Op: "unwatch", NS: ns} }
+func watch(ns string) Op   { return Op{Op: "watch", NS: ns} }
 
 // controller-level histories: create / update (type kept) / delete / delete-and-recreate with
 // another type or payload, with the worker running at arbitrary points in between.
@@ -545,6 +613,22 @@ func genCtl(r *vh.Rng, id int) Case {
 	n := 8 + r.Intn(24)
 	ops := make([]Op, 0, n+2)
 	salt := 0
+	// mode 0: the controller is running; 1: start-up over an existing cluster, namespaces lose and
+	// get the watch label; 2: start-up, and the process restarts over the surviving directory
+	mode := r.Intn(3)
+	class := []string{"ctl", "ctl-life", "ctl-restart"}[mode]
+	unw := map[string]bool{}
+	if mode > 0 {
+		for i, k := range keys {
+			if r.Chance(4, 5) {
+				cur[i], exists[i] = newType(), true
+				salt++
+				ops = append(ops, cput(k, cur[i], pickPayload(r, cur[i], r.Chance(3, 4)), salt))
+			}
+		}
+		ops = append(ops, start)
+		n += len(ops)
+	}
 	for len(ops) < n {
 		i := r.Intn(len(keys))
 		k := keys[i]
@@ -557,6 +641,18 @@ func genCtl(r *vh.Rng, id int) Case {
 			ops = append(ops, cput(k, cur[i], pickPayload(r, cur[i], r.Chance(3, 4)), salt))
 		}
 		switch {
+		case mode == 1 && x >= 90:
+			if unw[k.ns] {
+				delete(unw, k.ns)
+				ops = append(ops, watch(k.ns))
+			} else {
+				unw[k.ns] = true
+				// the queue is drained first: a Secret task of a namespace that is no longer watched
+				// crashes the worker (finding F38, kept as one fixed witness)
+				ops = append(ops, drain, unwatch(k.ns))
+			}
+		case mode == 2 && x >= 94:
+			ops = append(ops, restart, start)
 		case x < 26:
 			put()
 		case x < 36:
@@ -579,7 +675,7 @@ func genCtl(r *vh.Rng, id int) Case {
 		}
 	}
 	ops = append(ops, drain, get(keys[0]))
-	return Case{ID: id, Class: "ctl", Ops: ops}
+	return Case{ID: id, Class: class, Ops: ops}
 }
 
 // ---------- generators ----------
@@ -620,6 +716,23 @@ func witnesses() []Case {
 			cdel(x), drain, cput(x, "Opaque", "junk", 2), drain, get(x),
 			cput(keyT{"team", "s1"}, "kubernetes.io/tls", "pairB", 3), cput(x, "nginx.org/jwk", "jwk", 4), get(x), drain, get(x),
 			cput(x, "nginx.org/jwk", "nokey", 5), cdel(keyT{"team", "s1"}), drain, get(x)}},
+		{Class: "witness-ctl-startup", Ops: []Op{
+			cput(keyT{"team", "s1"}, "kubernetes.io/tls", "pairB", 0), cput(x, "kubernetes.io/tls", "pairA", 0),
+			cput(keyT{"default", "s2"}, "kubernetes.io/tls", "mismatch", 0), cput(keyT{"a", "c"}, "nginx.org/htpasswd", "ok", 0),
+			cput(keyT{"default", "web.tls"}, "Opaque", "pairA", 0), cput(keyT{"kube.sys", "s1"}, "nginx.org/jwk", "jwk", 0),
+			start, get(x), get(keyT{"default", "s2"}), get(keyT{"default", "web.tls"}), drain, get(x),
+			cput(x, "kubernetes.io/tls", "pairC", 1), drain, cput(keyT{"team", "s1"}, "kubernetes.io/tls", "pairA", 2), drain, get(keyT{"team", "s1"})}},
+		{Class: "witness-ctl-unwatch", Ops: []Op{
+			cput(keyT{"team", "s1"}, "kubernetes.io/tls", "pairB", 0), cput(x, "kubernetes.io/tls", "pairA", 0), start, drain,
+			get(keyT{"team", "s1"}), get(x), unwatch("team"), get(keyT{"team", "s1"}),
+			cput(keyT{"team", "s1"}, "kubernetes.io/tls", "pairC", 1), drain, get(keyT{"team", "s1"}),
+			watch("team"), drain, get(keyT{"team", "s1"}), unwatch("kube.sys"), watch("kube.sys")}},
+		{Class: "witness-ctl-restart", Ops: []Op{
+			cput(x, "kubernetes.io/tls", "pairA", 0), cput(keyT{"team", "s1"}, "nginx.org/jwk", "jwk", 0), start, drain,
+			get(x), get(keyT{"team", "s1"}), cdel(x), cput(keyT{"team", "s1"}, "nginx.org/jwk", "jwk", 1),
+			restart, start, drain, get(keyT{"team", "s1"}), get(x)}},
+		{Class: "witness-ctl-unwatch-pending", Ops: []Op{
+			cput(keyT{"team", "s1"}, "kubernetes.io/tls", "pairB", 0), unwatch("team"), drain, get(keyT{"team", "s1"})}},
 		{Class: "witness-force", Ops: []Op{
 			up(x, "nginx.org/jwk", "nokey", 0), force(x, "jwt"), get(x), up(x, "nginx.org/jwk", "jwk", 1), get(x),
 			up(x, "nginx.org/jwk", "nokey", 2), get(x), up(x, "nginx.org/jwk", "jwk", 3), del(x), force(x, "basic"),
@@ -771,7 +884,7 @@ func main() {
 		root := vh.NewRng(a.Seed)
 		for i := 0; i < a.N; i++ {
 			id := len(cases)
-			if i%5 == 4 {
+			if i%4 == 3 {
 				cases = append(cases, genCtl(root.Fork(uint64(id)), id))
 			} else {
 				cases = append(cases, genHistory(root.Fork(uint64(id)), id))
